@@ -482,9 +482,13 @@ class C10(engine.Property):
             rng, kinds=kinds, always=("mk_edge", "uni_add"), multi_p=0.15, lo=6, hi=50, mean=18
         )
         cfg["deep"] = deep
-        if rng.random() < 0.2:
+        r = rng.random()
+        if r < 0.2:
             # attributes kept in __slots__ (Python itself pickles those from protocol 2 on)
             cfg["vertex_classes"] = ["Vertex", "SlottedVertex"]
+        elif r < 0.3:
+            # vertices with value equality and an attribute-based hash
+            cfg["vertex_classes"] = ["Vertex", "EqVertex"]
         cfg["nu"] = rng.randint(0, 3)
         cfg["grow"] = rng.randint(3, 25)
         cfg["cont"] = rng.randint(3, 25)
